@@ -44,7 +44,8 @@ ASSUMPTIONS = {"C08": [
 ]}
 EXPECTED_PROBES = {"C08": ["probe:all_recorded_trials_failed_no_tree", "pool:out_of_order", "fault:trial_exception", "fault:trial_badtrial", "probe:cancelled_inflight",
                            "probe:second_search", "probe:postproc", "probe:reference_compared", "fault:clock_jump",
-                           "probe:early_stop", "pool:mode:process", "pool:mode:thread"]}
+                           "probe:early_stop", "pool:mode:process", "pool:mode:thread", "fault:trial_objective",
+                           "fault:poll_lag_batched_completions", "probe:simultaneous_completions"]}
 
 
 def violation_class(v):
@@ -54,7 +55,7 @@ def violation_class(v):
 # ---------------------------------------------------------------------------
 # trial-function wrappers (module level: picklable by reference)
 
-_STATE = {"fault_seed": 0, "rate": 0.0, "kinds": ("exception",), "trace": [], "registered": False}
+_STATE = {"fault_seed": 0, "rate": 0.0, "obj_rate": 0.0, "kinds": ("exception",), "trace": [], "registered": False}
 
 _REAL = {"sim-greedy": "greedy", "sim-random-greedy": "random-greedy", "sim-labels": "labels",
          "sim-kahypar": "kahypar", "sim-random": "random", "sim-labels-agglom": "labels-agglom",
@@ -128,12 +129,26 @@ def custom_objective(trial):
     return get_score_fn("flops")(trial) + 0.5 * math.log2(trial["tree"].max_size() + 1)
 
 
+def custom_objective_faulty(trial):
+    """User objective that fails for some trees (fault site: the scoring step).
+    Which trees is a function of (fault seed, tree), so the serial reference
+    knows; the failure is recorded against the trial that was just built."""
+    from cotengra.scoring import get_score_fn
+
+    if _STATE["obj_rate"] > 0 and _STATE["trace"]:
+        d, fault = _STATE["trace"][-1]
+        if fault is None and (prng.H(_STATE["fault_seed"], "objective", d) % 10000) < _STATE["obj_rate"] * 10000:
+            _STATE["trace"][-1] = (d, "objective")
+            raise ArithmeticError(f"injected objective fault {d}")
+    return get_score_fn("flops")(trial) + 0.5 * math.log2(trial["tree"].max_size() + 1)
+
+
 # ---------------------------------------------------------------------------
 # generation
 
 # "sim-labels-agglom" is excluded: build_agglom can loop forever when the partitioner returns a single group (observation O3)
 METHOD_POOL = ["sim-greedy", "sim-random-greedy", "sim-labels", "sim-kahypar", "sim-random"]
-OBJECTIVES = ["flops", "size", "write", "combo", "combo-32", "limit", "limit-8", "custom"]
+OBJECTIVES = ["flops", "size", "write", "combo", "combo-32", "limit", "limit-8", "custom", "custom-faulty"]
 
 
 def gen_case(prop, seed, tier):
@@ -180,14 +195,14 @@ def gen_case(prop, seed, tier):
     elif "slicing_opts" in post and "simulated_annealing_opts" in post:
         post["simulated_annealing_opts"].pop("target_size", None)
     minimize = sw.choice(OBJECTIVES)
-    if minimize == "custom":
+    if minimize in ("custom", "custom-faulty"):
         # a plain callable objective has no score_local / score_slice_index /
         # get_dynamic_programming_minimize: post-processing is not offered for it
         post = {}
     pool = None
     if sw.random() < 0.7:
         pool = {"workers": sw.randint(1, 6), "mode": sw.choice(["thread", "process"]), "seed": sw.randrange(2 ** 31),
-                "slow": sw.random() < 0.3}
+                "slow": sw.random() < 0.3, "grid": sw.choice([None, None, 0.25]), "poll_lag": sw.choice([0.0, 0.0, 0.3, 0.8])}
     optlib = sw.choice(["random", "random", "random", "cmaes"])
     if optlib == "cmaes":
         # cmaes cannot be built over an empty parameter space (constructor asserts at once)
@@ -226,6 +241,8 @@ def _mk_opt(ctg, case, pool, faulty):
     minimize = case["minimize"]
     if minimize == "custom":
         minimize = custom_objective
+    elif minimize == "custom-faulty":
+        minimize = custom_objective_faulty
     kw = dict(methods=list(case["methods"]), minimize=minimize, max_repeats=case["max_repeats"],
               max_time=case["max_time"], parallel=pool if pool is not None else False, optlib=case["optlib"],
               on_trial_error=case["on_trial_error"], max_training_steps=case["max_training_steps"], progbar=False,
@@ -263,6 +280,7 @@ def _run_once(ctg, case, use_pool, use_faults, log, counters, faults, with_clock
     """Run the case's searches. Returns dict with per-search results."""
     _STATE["fault_seed"] = case["fault"]["seed"]
     _STATE["rate"] = case["fault"]["rate"] if use_faults else 0.0
+    _STATE["obj_rate"] = (case["fault"].get("obj_rate", 0.25) if case["minimize"] == "custom-faulty" else 0.0) if use_faults else 0.0
     _STATE["kinds"] = tuple(case["fault"]["kinds"])
     _STATE["trace"] = []
     clk = simclock.VirtualClock()
@@ -288,7 +306,20 @@ def _run_once(ctg, case, use_pool, use_faults, log, counters, faults, with_clock
             speed = [1.0] * spec["workers"]
             speed[prg.randrange(spec["workers"])] = 50.0
             faults["fault:slow_worker"] += 1
-        pool = SimPool(clk, workers=spec["workers"], mode=spec["mode"], rng=prg, speed=speed)
+        pool = SimPool(clk, workers=spec["workers"], mode=spec["mode"], rng=prg, speed=speed, grid=spec.get("grid"))
+        lag = spec.get("poll_lag", 0.0)
+        if lag:
+            lrng = random.Random(spec["seed"] + 1)
+
+            def oversleep():
+                n = 0
+                while lrng.random() < lag and n < 6:
+                    n += 1
+                if n:
+                    faults["fault:poll_lag_batched_completions"] += 1
+                return n
+
+            clk.oversleep = oversleep
     net = case["net"]
     inputs = tuple(tuple(t) for t in net["inputs"])
     output = tuple(net["output"])
@@ -460,6 +491,8 @@ def run_case(prop, case):
             counters["pool:" + k] += pool.stats[k]
         if pool.stats["cancelled"]:
             counters["probe:cancelled_inflight"] += 1
+        if pool.stats["batched"]:
+            counters["probe:simultaneous_completions"] += pool.stats["batched"]
         if pool.stats["out_of_order"]:
             faults["fault:completion_reordered"] += 1
 
